@@ -172,6 +172,9 @@ func kindsIn(e *bqlm.Expr, acc map[string]bool) {
 	}
 }
 
+// baselinePrinted: per table the printed rows of its query WITHOUT HAVING, taken before any HAVING statement ran.
+var baselinePrinted = map[string][]string{}
+
 func check(t tbl, e *bqlm.Expr, data []*triple.Triple) verdict {
 	q := &bqlm.Query{From: []string{"?g"}, Where: t.where, Proj: t.proj, GroupBy: t.group, Having: e.Render()}
 	ks := map[string]bool{}
@@ -227,6 +230,21 @@ func check(t tbl, e *bqlm.Expr, data []*triple.Triple) verdict {
 	got := res.Sorted()
 	v.outcome = fmt.Sprintf("kept=%d/%d", len(got), len(full))
 	if model.SameStrings(wk, got) {
+		// "and leaves them unchanged": the kept rows print exactly as the same rows do without HAVING
+		if base := baselinePrinted[t.name]; base != nil {
+			left := map[string]int{}
+			for _, p := range base {
+				left[p]++
+			}
+			for _, p := range res.Printed {
+				if left[p] == 0 {
+					v.shape = "kept-row-printed-differently-than-without-having"
+					v.detail = fmt.Sprintf("%s\n the kept row %s does not occur among the rows of the same query without HAVING: %v", text, p, base)
+					return v
+				}
+				left[p]--
+			}
+		}
 		v.ok = true
 		return v
 	}
